@@ -105,6 +105,11 @@ def check_iteration(rep, fs, st, trace, k, tag, kind):
         # a path that did not distinguish valid from invalid kinds
         if snds:
             rep.fail('R06.3', 'iter|kind-unchecked' + tag, 'a frame is emitted for a descriptor whose kind was not checked (%s)' % tyb, function='parseEmit', file=fnf)
+        elif not fault:
+            # nothing is sent although the descriptor may be of a valid kind: some other test (on its addresses, its pause,
+            # ...) lets a valid descriptor go without its Probe/Train - and without the ACK if it was the last one
+            rep.fail('R06.2', 'iter|valid-kind-no-frame' + tag, 'an iteration transmits nothing although the descriptor may be a valid Probe/Train request (kind %s): '
+                     'every descriptor of kind 0/1 must yield its pause and its frame, whatever its addresses' % tyb, function='parseEmit', file=fnf)
         return
     if not valid:
         rep.check(not snds, 'R06.2', 'iter|invalid-kind' + tag, 'descriptor of unknown kind %s still makes the responder transmit' % tyb, function='parseEmit', file=fnf)
